@@ -102,7 +102,8 @@ Value& OpDIVExpression::value(Context& ctx) const
         Integer l = *a2.integer();
         if (l == 0)
           throw RuntimeError(EXC_RT_DIVIDE_BY_ZERO);
-        Value val(Integer(*a1.integer() / l));
+        /* INT64_MIN / -1 wraps around as all integer arithmetic does (the hardware traps on it) */
+        Value val(Integer(l == -1 ? Integer(0 - static_cast<uint64_t>(*a1.integer())) : *a1.integer() / l));
         return LVAL2(val, a1, a2);
       }
       case Type::IMAGINARY:
